@@ -28,7 +28,7 @@ m = {
     "setup_cmd": "cd /verif/vx && CARGO_NET_OFFLINE=true cargo build --release --offline && cd /verif/cex && cp -n /repo/Cargo.lock Cargo.lock; CARGO_NET_OFFLINE=true cargo build --offline",
     "hooks": {
         "guard": "zerv_verif",
-        "enable": "no hooks: contracts live in /verif and are spliced into text re-extracted from /repo on every run; Kani harnesses use the public API",
+        "enable": "no hooks and no cfg flag are needed: contracts live in /verif and are spliced into text re-extracted from /repo on every run; the bounded engine uses the crate's public API",
         "baseline_off_cmd": "cd /repo && cargo nextest run --workspace --no-fail-fast --test-threads 8 --offline || cargo test --workspace --no-fail-fast --offline",
         "source_commits": [],
         "add_only": True,
@@ -36,12 +36,13 @@ m = {
     "engines": [
         {"name": "vx", "path": "/verif/vx", "serves_properties": sorted(props), "kind_free_text": "syn/prettyplease extractor + contract splicer; regex literal -> SMT-LIB RegLan"},
         {"name": "verus", "path": "/usr/local/bin/verus", "serves_properties": sorted(p for p in props if props[p].get("units")), "kind_free_text": "deductive verifier (z3 back end), single generated file per unit"},
-        {"name": "cex", "path": "/verif/cex", "serves_properties": sorted(p for p in props if props[p].get("units")), "kind_free_text": "bounded counterexample search on the real crate (path dependency on /repo): supplies concrete failing inputs for replay files, settles lost-anchor cases, bounded stand-in for assumed contracts; never counted as proof"},
+        {"name": "cex", "path": "/verif/cex", "serves_properties": sorted(p for p in props if props[p].get("units") or props[p].get("cex_families")), "kind_free_text": "bounded counterexample search on the real crate (path dependency on /repo): supplies concrete failing inputs for replay files, settles lost-anchor cases, bounded stand-in for assumed contracts; never counted as proof"},
+        {"name": "cliengine", "path": "/verif/lib/cliengine.py", "serves_properties": sorted(p for p in props if props[p].get("cli_discipline")), "kind_free_text": "process-level bounded family on the real binary (streams, exit status, failing git); bounded only, never counted as proof"},
         {"name": "rengine", "path": "/verif/lib/rengine.py", "serves_properties": sorted(p for p in props if props[p].get("regex")), "kind_free_text": "z3 / cvc5 emptiness queries on regular languages, witnesses replayed on the real binary"},
     ],
     "checks": checks,
     "not_applicable": na,
-    "notes": "Technique family: contract-based deductive verification of the real code (Verus on mechanically extracted functions; SMT regex-language obligations; Kani only as bounded cross-check in the thorough tier). exit 2 = UNDECIDED (lost anchor / tool limit), never an alarm.",
+    "notes": "Technique family: contract-based deductive verification of the real code (Verus on functions mechanically re-extracted from /repo on every run; solver-discharged regex-language obligations). Code no contract reaches has a bounded stand-in on the real crate / binary, labelled bounded in the evidence and never counted in obligations/discharged. Kani is not used (DESIGN.md 2b). exit 0 = held on everything explored; exit 1 + VIOLATION line = a named obligation failed or a concrete input fails on the real code; exit 2 = UNDECIDED (lost contract anchor / unsupported construct / tool limit), never an alarm.",
 }
 json.dump(m, open(f"{H}/MANIFEST.json", "w"), indent=1)
 print("wrote MANIFEST.json with", len(checks), "checks,", len(na), "not applicable")
